@@ -865,7 +865,18 @@ impl LdapConnAsync {
                 },
                 resp = self.stream.next() => {
                     let (id, (tag, controls)) = match resp {
-                        None => break,
+                        None => {
+                            if let LoopMode::SingleOp = mode {
+                                // The peer closed the connection while the response to the single
+                                // operation was awaited. Return an error, dropping the connection
+                                // state, so that the waiting operation is released.
+                                return Err(LdapError::from(io::Error::new(
+                                    io::ErrorKind::UnexpectedEof,
+                                    "connection closed by peer",
+                                )));
+                            }
+                            break
+                        },
                         Some(Err(e)) => {
                             warn!("socket receive error: {}", e);
                             return Err(LdapError::from(e));
